@@ -346,3 +346,114 @@ Fixpoint count_productive (c : cfg) (s : state) (es : list event) : nat :=
   | e :: t => let '(s1, a) := step c s e in
               ((if productive s e a then 1 else 0) + count_productive c s1 t)%nat
   end.
+
+(* ---- vocabulary for the GET_PROVIDERS result ---- *)
+(* everything reported for peer p, in report order *)
+Definition addrs_of (p : N) (l : list (N * list N)) : list N :=
+  flat_map (fun x : N * list N => if fst x =? p then snd x else []) l.
+(* strictly increasing (hence duplicate-free) address list *)
+Fixpoint asorted (l : list N) : Prop :=
+  match l with [] => True | a :: t => (forall b, In b t -> a < b) /\ asorted t end.
+
+(* ---- the closed loop: engine + adaptive environment ---- *)
+(* The environment sees the whole query state. At every turn it either resolves an outstanding
+   request (answer with an arbitrary reply, or fail it) or lets the engine run `next_action` at a
+   time of its choosing. `idle` tells it that the last `next_action` call returned nothing. *)
+Record env := mkEnv {
+  e_time : state -> N;
+  e_move : bool -> state -> option (N * option reply)
+}.
+
+Fixpoint drive (fuel : nat) (c : cfg) (E : env) (idle : bool) (s : state) : list event :=
+  match fuel with
+  | O => []
+  | S f =>
+      if done s then []
+      else match e_move E idle s with
+           | Some (p, Some r) => EResp p r :: drive f c E false (on_response c s p r)
+           | Some (p, None) => EFail p :: drive f c E false (on_failure c s p)
+           | None =>
+               let now := e_time E s in
+               ENext now ::
+               drive f c E (match snd (next_action c s now) with ANone => true | _ => false end)
+                     (fst (next_action c s now))
+           end
+  end.
+
+(* Fairness: the environment only resolves requests that are outstanding (with peers from the
+   universe U), and once the engine has gone idle with a request outstanding it resolves one of
+   them before it calls `next_action` again — every outstanding request is eventually answered
+   or failed, in any order and with any content. *)
+Definition fair (U : list N) (E : env) : Prop :=
+  forall idle s, done s = false ->
+    match e_move E idle s with
+    | Some (p, r) =>
+        In p (map fst (pend s)) /\
+        match r with Some rp => forall q, In q (r_peers rp) -> In q U | None => True end
+    | None => idle = false \/ pend s = []
+    end.
+
+(* ---- QueryEngine::next_peer_action: the message for a peer, if the query waits for it ---- *)
+Definition peer_msg (s : state) (p : N) : bool := effective s p.
+
+(* ---- several queries in one QueryEngine ---- *)
+(* The engine is a list of (configuration, query state); the index is the QueryId. *)
+Definition engine := list (cfg * state).
+
+Inductive mevent :=
+| MNext (now choice : N)   (* QueryEngine::next_action; choice = i+1: query i is the one that is
+                              polled (HashMap order is the implementation's choice, supplied as an
+                              input); choice = 0: queries are polled in index order until one acts *)
+| MEv (q : N) (e : event). (* an event addressed to query q *)
+
+Fixpoint upd {A} (i : nat) (x : A) (l : list A) : list A :=
+  match l, i with
+  | [], _ => []
+  | _ :: t, O => x :: t
+  | h :: t, S j => h :: upd j x t
+  end.
+
+(* poll the queries in order; stop at the first one that acts. Returns the engine, the action
+   and the number of queries polled *)
+Fixpoint scan (now : N) (eng : engine) : engine * action * nat :=
+  match eng with
+  | [] => ([], ANone, O)
+  | (c, s) :: t =>
+      let '(s', a) := next_action c s now in
+      match a with
+      | ANone => let '(t', a', n) := scan now t in ((c, s') :: t', a', S n)
+      | _ => ((c, s') :: t, a, 1%nat)
+      end
+  end.
+
+(* one engine step: new engine, action, and the log of (query index, event) pairs that were
+   actually applied to individual queries *)
+Definition mstep (eng : engine) (m : mevent) : engine * action * list (nat * event) :=
+  match m with
+  | MNext now 0 =>
+      let '(eng', a, n) := scan now eng in (eng', a, map (fun i => (i, ENext now)) (seq 0 n))
+  | MNext now ch =>
+      let i := N.to_nat (ch - 1) in
+      match nth_error eng i with
+      | Some (c, s) => let '(s', a) := next_action c s now in (upd i (c, s') eng, a, [(i, ENext now)])
+      | None => (eng, ANone, [])
+      end
+  | MEv q e =>
+      let i := N.to_nat q in
+      match nth_error eng i with
+      | Some (c, s) => let '(s', a) := step c s e in (upd i (c, s') eng, a, [(i, e)])
+      | None => (eng, ANone, [])
+      end
+  end.
+
+Fixpoint mrun (eng : engine) (ms : list mevent) : engine * list (nat * event) :=
+  match ms with
+  | [] => (eng, [])
+  | m :: t =>
+      let '(eng1, _, lg) := mstep eng m in
+      let '(eng2, lg2) := mrun eng1 t in (eng2, lg ++ lg2)
+  end.
+
+(* the events that reached query i, in order *)
+Definition events_of (i : nat) (lg : list (nat * event)) : list event :=
+  map snd (filter (fun x => Nat.eqb (fst x) i) lg).
